@@ -321,6 +321,8 @@ def run(rep, facts, tier):
     rule_14_7(rep, fx)
     rule_14_8(rep, fx)
     rule_14_9(rep, fx)
+    from rules import numberset as _ns
+    _ns.rule_from_base_and_set(rep, fx, 'R14.11')
     if tier == 'thorough' and 'security' in facts:
         default_types = set(strip_generics(b.impl_self or '') for b in fx.bodies if b.name == 'len_serialized' and b.impl_self)
         rule_14_6(rep, facts['security'], pre='security:', skip=default_types)
